@@ -8,7 +8,7 @@
    resolve_blocked_streams   the stream count of a channel no waiting call of
                              which returned is not changed by the unblocking loop *)
 From GV Require Import Base.AListFacts Pool.Model Pool.Observe Pool.Monitors
-                       Pool.Lemmas Pool.Inv Pool.Inv2 Pool.Frames Pool.Reduce Pool.C07Refresh.
+                       Pool.Lemmas Pool.Inv Pool.Inv2 Pool.Frames Pool.Reduce Pool.SimW Pool.InvC02 Pool.C07Refresh.
 From Coq Require Import Lia ZifyBool.
 Open Scope Z_scope.
 
@@ -364,5 +364,60 @@ Proof.
     destruct (In_unblocked_from s (b_picks s) 0%nat p Hin Ers) as [j Hj].
     rewrite <- Hl in Hj. apply (Hno j). unfold slot_conn_of in Hj. rewrite Heq in Hj.
     unfold get_slot in Hr. unfold get_slot in Hj. rewrite Hr in Hj. exact Hj. }
+  destruct r, r'; cbn in *. inv Hg. reflexivity.
+Qed.
+
+(* ---------------------------------------------------------------- with calls returning: the exact count *)
+(* the entries of the unblocked list that were handed connection [c] *)
+Definition handed (c : N) (l : list (nat * N)) : nat := length (filter (fun jn => N.eqb (snd jn) c) l).
+
+Lemma slot_conn_of_iff s i r k :
+  InvK s -> get_slot s i = Some r -> (k < length (b_slots s))%nat ->
+  N.eqb (slot_conn_of s k) (sl_conn r) = Nat.eqb k i.
+Proof.
+  intros HK Hr Hk. destruct (nth_error_lt_Some _ _ Hk) as [rk Hrk]. unfold slot_conn_of, get_slot. rewrite Hrk.
+  destruct (Nat.eqb_spec k i) as [->|Hne].
+  - unfold get_slot in Hr. assert (rk = r) by congruence. subst. apply N.eqb_refl.
+  - apply N.eqb_neq. intros E. apply Hne.
+    apply (NoDup_nth_error_inj (conns s) k i (sl_conn r) (nd_conns HK)); apply nth_error_map_Some; eauto.
+Qed.
+
+Lemma unblocked_count s i r : InvK s -> get_slot s i = Some r -> forall ps n,
+  (forall p, In p ps -> (pk_slot p < length (b_slots s))%nat) ->
+  (length (filter (placed_on i) (map (resolve_pick s) ps)) =
+   length (filter (placed_on i) ps) + handed (sl_conn r) (unblocked_from s n ps))%nat.
+Proof.
+  intros HK Hr. unfold handed. induction ps as [|p ps IH]; intros n Hv; [reflexivity|].
+  cbn [map unblocked_from filter]. rewrite filter_app, app_length.
+  rewrite (IH (S n)) by (intros q Hq; apply Hv; right; exact Hq).
+  unfold resolve_pick at 1. destruct (resolvable s p) eqn:Ers.
+  - assert (Hb : placed_on i p = false).
+    { unfold resolvable, is_blocked in Ers. unfold placed_on. destruct (pk_status p); try discriminate. reflexivity. }
+    rewrite Hb. cbn [filter snd].
+    rewrite (slot_conn_of_iff s i r (pk_slot p) HK Hr) by (apply Hv; left; reflexivity).
+    unfold placed_on at 1, unblock_pick; sb.
+    destruct (Nat.eqb (pk_slot p) i); cbn [length]; lia.
+  - cbn [filter length]. destruct (placed_on i p); cbn [length]; lia.
+Qed.
+
+Lemma resolve_blocked_streams_count s s' l i r :
+  Inv s -> picks_ok s -> resolve_blocked s = (s', l) -> get_slot s i = Some r ->
+  get_slot s' i = Some (sl_set_streams r (sl_streams r + Z.of_nat (handed (sl_conn r) l))).
+Proof.
+  intros HI Hok E Hr. destruct (resolve_blocked_spec _ _ _ HI E) as [HI' [Hm [Hp Hl]]].
+  pose proof (mask_sp_get_slot s s' i Hm) as Hg. rewrite Hr in Hg.
+  destruct (get_slot s' i) as [r'|] eqn:Hr'; [|discriminate]. cbn [option_map] in Hg.
+  f_equal. assert (Hst : sl_streams r' = sl_streams r + Z.of_nat (handed (sl_conn r) l)).
+  { pose proof HI as (HK&_&_&_&_&HS). destruct HI' as (_&_&_&_&_&HS').
+    assert (H1 : nth_error (streamsv s) i = Some (sl_streams r)) by (apply nth_error_map_Some; eauto).
+    assert (H2 : nth_error (streamsv s') i = Some (sl_streams r')) by (apply nth_error_map_Some; eauto).
+    rewrite (streams_ok HS _ _ H1), (streams_ok HS' _ _ H2), Hp, Hl.
+    assert (Hv : forall p, In p (b_picks s) -> (pk_slot p < length (b_slots s))%nat).
+    { intros p Hin. pose proof (picks_slot HS p Hin) as H. rewrite map_length in H. exact H. }
+    pose proof (unblocked_count s i r HK Hr (b_picks s) 0%nat Hv) as Hc.
+    pose proof (count_placed_on_le (b_picks s) i) as Hle1.
+    pose proof (count_placed_on_le (map (resolve_pick s) (b_picks s)) i) as Hle2. rewrite map_length in Hle2.
+    unfold picks_ok in Hok. unfold count_placed_on in *.
+    rewrite !wrap32s_small by (unfold I32 in *; lia). lia. }
   destruct r, r'; cbn in *. inv Hg. reflexivity.
 Qed.
